@@ -1,4 +1,5 @@
 import PyemvGen.Mod.Common
+import PyemvProps.C05
 import PyemvGen.Mod.kd_tree_walk
 import PyemvGen.Mod.kd_tree_derive
 import PyemvGen.Mod.tools_xor
@@ -15,5 +16,18 @@ theorem kd_tree_sk (mk atc : Bytes) (h b : Nat) (iv : Bytes) :
     simp [h1, h2, h3, hg, hb, throw, throwThe, MonadExceptOf.throw]
   all_goals (repeat (first | rfl | split))
   all_goals simp_all
+
+/-- **C05 about the translated source**: accepted parameters give the Annex A1.3 tree key, and exactly the
+parameters with `b^H > 65535` are accepted. -/
+theorem source_tree_sk (mk atc iv : Bytes) (b H : Nat) (hmk : mk.length = 16) (ha : atc.length = 2)
+    (hiv : iv.length = 16) (hb : 0 < b) (hg : b ^ (H + 1) > 65535) :
+    Gen.kd.derive_emv2000_tree_sk mk atc (H + 1) b iv =
+      .ok (adjustKeyParity (Tree.skSpec phi b mk iv xorB H (fromBE atc))) := by
+  rw [kd_tree_sk]; exact C05.tree_sk_eq_spec mk atc iv b H hmk ha hiv hb hg
+
+theorem source_tree_gate (mk atc iv : Bytes) (b H : Nat) (hmk : mk.length = 16) (ha : atc.length = 2)
+    (hiv : iv.length = 16) (hb : 0 < b) :
+    (∃ k, Gen.kd.derive_emv2000_tree_sk mk atc (H + 1) b iv = .ok k) ↔ b ^ (H + 1) > 65535 := by
+  rw [kd_tree_sk]; exact C05.gate_iff mk atc iv b H hmk ha hiv hb
 
 end Pyemv.ModRefines
